@@ -235,3 +235,30 @@ type dynInfo struct {
 	T types.Type
 	V Val
 }
+
+// typeByReflectName resolves the String() of a reflect.Type ("*runningstatus.smfreader", "smf.TimeCode") to
+// the named type of a loaded package.
+func (e *Engine) typeByReflectName(name string) types.Type {
+	ptr := strings.HasPrefix(name, "*")
+	n := strings.TrimPrefix(name, "*")
+	i := strings.LastIndex(n, ".")
+	if i < 0 {
+		return nil
+	}
+	p := e.pkgByName[n[:i]]
+	if p == nil {
+		return nil
+	}
+	obj := p.Pkg.Scope().Lookup(n[i+1:])
+	if obj == nil {
+		return nil
+	}
+	tn, ok := obj.(*types.TypeName)
+	if !ok {
+		return nil
+	}
+	if ptr {
+		return types.NewPointer(tn.Type())
+	}
+	return tn.Type()
+}
